@@ -5,9 +5,9 @@
 #![allow(dead_code, unused_imports)]
 use num_bigint::BigInt;
 
-use crate::assembler::*;
-use crate::instructions::*;
-use crate::operand::*;
+// the including module provides `oracle_imports` (casm's assembler/instructions/operand items),
+// so that the same oracle text can be used from inside cairo-lang-casm and from other crates
+use super::oracle_imports::*;
 
 // ---------- oracle 1: decoder written from the instruction layout ----------
 #[derive(Clone, Copy, PartialEq, Eq, Debug)]
